@@ -107,6 +107,9 @@ def start_reach():
     mon.set_events(_TOOL, mon.events.LINE)
 
 
+REACH_DETAIL = {}      # anchor -> line offsets (relative to the def line) hit in this process / executable at all
+
+
 def reach_report(anchors):
     """anchors: list of 'module:qualname'. returns ({name: 'hit/total'}, {name: bool})."""
     rep, hit = {}, {}
@@ -126,6 +129,7 @@ def reach_report(anchors):
             got.discard(code.co_firstlineno)
             rep[a] = f"{len(got)}/{len(body)}"
             hit[a] = len(got) > 0
+            REACH_DETAIL[a] = {"hit": sorted(int(l - code.co_firstlineno) for l in got), "body": sorted(int(l - code.co_firstlineno) for l in body)}
         except Exception as e:  # noqa: BLE001
             rep[a] = f"unresolved ({type(e).__name__})"
             hit[a] = False
